@@ -63,6 +63,8 @@ REJECT = [
     ("two draws", "fn f() -> u64 { let a = rnd(); let b = rnd(); a }", "more than one draw"),
     ("float", "fn f(a: u64) -> u64 { let x = 1.5; a }", "floating point"),
     ("effect in expression", "fn f(a: u64) -> u64 { let mut x = a; let y = 1 + { x = 2; x }; y }", "effect"),
+    ("macro in closure", "fn f(v: Vec<u64>) -> bool { v.iter().any(|x| todo!()) }", "macro `todo!`"),
+    ("? in closure", "fn f(v: Vec<u64>, o: Option<u64>) -> bool { v.iter().any(|x| *x > o?) }", "`?` operator"),
     ("missing function", "fn g(a: u64) -> u64 { a }", "not found in the source"),
 ]
 for name, src, needle in REJECT:
@@ -97,6 +99,7 @@ fn f(limit: u64, xs: Vec<u64>) -> Option<u64>
     tracing::debug!("computing over {} values", xs.len());
     /* block
        comment */
+    if limit > 3 { tracing::trace!("big limit"); }
     let top = xs.iter()
         .map(|elem| elem.saturating_add(1))
         .max();
